@@ -144,6 +144,11 @@ def timed_dist(chk, case, m, prefix="timed"):
     kinds = [e[0] for e in m.get("history", [])]
     if case.get("timed"):
         chk.dist(prefix + ".cases")
+        text = json.dumps(case["machine"])
+        if '"TimeoutSecondsPath"' in text:
+            chk.dist(prefix + ".machines_with_TimeoutSecondsPath")
+        if '"HeartbeatSeconds' in text:
+            chk.dist(prefix + ".machines_with_HeartbeatSeconds(Path)")
     if "LambdaFunctionTimedOut" in kinds:
         chk.dist(prefix + ".task_timed_out", kinds.count("LambdaFunctionTimedOut"))
     if "WaitStateExited" in kinds:
